@@ -91,4 +91,241 @@ theorem readLine_raw_ascii (line rest acc : List UInt8) (h : ∀ b ∈ line, b <
       rw [ih (acc ++ [b]) ht f hlen]
       simp
 
+/-! ### short reads -/
+
+theorem gatherF_spec (fuel need : Nat) (input : List UInt8) (sh : List Nat) (h : need ≤ fuel) :
+    (gatherF fuel need input sh).1 = input.take need ∧ (gatherF fuel need input sh).2.1 = input.drop need := by
+  induction fuel generalizing need input sh with
+  | zero =>
+    have : need = 0 := by omega
+    subst this
+    simp [gatherF]
+  | succ f ih =>
+    cases need with
+    | zero => simp [gatherF]
+    | succ n =>
+      cases input with
+      | nil => simp [gatherF]
+      | cons a t =>
+        simp only [gatherF]
+        have hc1 : 1 ≤ min (n + 1) (max 1 (sh.headD 1)) := by omega
+        have hc2 : min (n + 1) (max 1 (sh.headD 1)) ≤ n + 1 := by omega
+        generalize min (n + 1) (max 1 (sh.headD 1)) = c at hc1 hc2
+        have := ih (n + 1 - c) ((a :: t).drop c) sh.tail (by omega)
+        refine ⟨?_, ?_⟩
+        · rw [this.1]
+          have e : n + 1 = c + (n + 1 - c) := by omega
+          conv => rhs; rw [e, List.take_add]
+        · rw [this.2, List.drop_drop]
+          congr 1
+          omega
+
+theorem readCharChunked_eq (b : UInt8) (rest : List UInt8) (sh : List Nat) :
+    (readCharChunked b rest sh).1 = readCharBytes b rest := by
+  unfold readCharChunked readCharBytes gather
+  have h := gatherF_spec (utf8SeqLen b - 1) (utf8SeqLen b - 1) rest sh (Nat.le_refl _)
+  by_cases hk : utf8SeqLen b = 0
+  · simp [hk]
+  · simp only [hk, if_false]
+    rw [← h.1, ← h.2]
+    split <;> rfl
+
+theorem readLineChunked_eq (raw : Bool) (fuel : Nat) (input acc : List UInt8) (sh : List Nat) :
+    readLineChunked raw fuel input acc sh = readLine raw fuel input acc := by
+  induction fuel generalizing input acc sh with
+  | zero => simp [readLineChunked, readLine]
+  | succ f ih =>
+    cases input with
+    | nil => simp [readLineChunked, readLine]
+    | cons b rest =>
+      simp only [readLineChunked, readLine]
+      have h1 := readCharChunked_eq b rest sh
+      rcases hc : readCharChunked b rest sh with ⟨o, sh'⟩
+      rw [hc] at h1
+      simp only at h1
+      rw [← h1]
+      cases o with
+      | none => rfl
+      | some p =>
+        obtain ⟨ch, rest'⟩ := p
+        simp only
+        split
+        · rfl
+        · split
+          · cases rest' with
+            | nil => rfl
+            | cons b2 rest2 =>
+              simp only
+              have h2 := readCharChunked_eq b2 rest2 sh'
+              rcases hc2 : readCharChunked b2 rest2 sh' with ⟨o2, sh''⟩
+              rw [hc2] at h2
+              simp only at h2
+              rw [← h2]
+              cases o2 with
+              | none => rfl
+              | some p2 =>
+                obtain ⟨ch2, rest3⟩ := p2
+                simp only
+                split
+                · exact ih _ _ _
+                · exact ih _ _ _
+          · exact ih _ _ _
+
+/-! ### UTF-8 byte ranges -/
+
+theorem u8_lt_lit (n k : Nat) (hn : n < 256) (hk : k < 256) : (UInt8.ofNat n < UInt8.ofNat k) ↔ n < k := by
+  rw [UInt8.lt_iff_toNat_lt]
+  simp [Nat.mod_eq_of_lt hn, Nat.mod_eq_of_lt hk]
+
+theorem u8_le_lit (n k : Nat) (hn : n < 256) (hk : k < 256) : (UInt8.ofNat k ≤ UInt8.ofNat n) ↔ k ≤ n := by
+  rw [UInt8.le_iff_toNat_le]
+  simp [Nat.mod_eq_of_lt hn, Nat.mod_eq_of_lt hk]
+
+theorem utf8SeqLen_ofNat (n : Nat) (hn : n < 256) :
+    utf8SeqLen (UInt8.ofNat n) =
+      if n < 128 then 1 else if n < 194 then 0 else if n < 224 then 2 else if n < 240 then 3 else if n < 245 then 4 else 0 := by
+  unfold utf8SeqLen
+  have e1 := u8_lt_lit n 0x80 hn (by omega)
+  have e2 := u8_lt_lit n 0xC2 hn (by omega)
+  have e3 := u8_lt_lit n 0xE0 hn (by omega)
+  have e4 := u8_lt_lit n 0xF0 hn (by omega)
+  have e5 := u8_lt_lit n 0xF5 hn (by omega)
+  rw [show (0x80 : UInt8) = UInt8.ofNat 0x80 from rfl, show (0xC2 : UInt8) = UInt8.ofNat 0xC2 from rfl,
+    show (0xE0 : UInt8) = UInt8.ofNat 0xE0 from rfl, show (0xF0 : UInt8) = UInt8.ofNat 0xF0 from rfl,
+    show (0xF5 : UInt8) = UInt8.ofNat 0xF5 from rfl]
+  simp only [e1, e2, e3, e4, e5]
+
+theorem cont_ofNat (n : Nat) (hn : n < 256) :
+    ((0x80 : UInt8) ≤ UInt8.ofNat n && UInt8.ofNat n < (0xC0 : UInt8)) = (decide (128 ≤ n) && decide (n < 192)) := by
+  have e1 := u8_le_lit n 0x80 hn (by omega)
+  have e2 := u8_lt_lit n 0xC0 hn (by omega)
+  rw [show (0x80 : UInt8) = UInt8.ofNat 0x80 from rfl, show (0xC0 : UInt8) = UInt8.ofNat 0xC0 from rfl]
+  simp only [e1, e2]
+
+theorem readCharBytes_utf8 (c : Char) (rest : List UInt8) :
+    ∃ b t, String.utf8EncodeChar c = b :: t ∧ readCharBytes b (t ++ rest) = some (b :: t, rest) := by
+  have hv : c.val.toNat < 0x110000 := by
+    have := c.valid
+    rcases this with h | h
+    · have : c.val.toNat < 0xd800 := h
+      omega
+    · exact h.2
+  generalize hvv : c.val.toNat = v at hv
+  unfold String.utf8EncodeChar
+  simp only [hvv]
+  split
+  · refine ⟨_, _, rfl, ?_⟩
+    have hk : utf8SeqLen (UInt8.ofNat v) = 1 := by
+      rw [utf8SeqLen_ofNat v (by omega)]
+      have : v < 128 := by omega
+      simp [this]
+    simp [readCharBytes, hk]
+  · split
+    · refine ⟨_, _, rfl, ?_⟩
+      have hk : utf8SeqLen (UInt8.ofNat (v / 64 % 32 + 192)) = 2 := by
+        rw [utf8SeqLen_ofNat _ (by omega)]
+        have h1 : ¬ (v / 64 % 32 + 192 < 128) := by omega
+        have h2 : ¬ (v / 64 % 32 + 192 < 194) := by omega
+        have h3 : v / 64 % 32 + 192 < 224 := by omega
+        simp only [h1, h2, h3, if_false, if_true]
+      have c1 := cont_ofNat (v % 64 + 128) (by omega)
+      have d1 : (decide (128 ≤ v % 64 + 128) && decide (v % 64 + 128 < 192)) = true := by
+        simp only [Bool.and_eq_true, decide_eq_true_eq]; omega
+      rw [d1] at c1
+      generalize UInt8.ofNat (v / 64 % 32 + 192) = b at hk ⊢
+      generalize UInt8.ofNat (v % 64 + 128) = b2 at c1 ⊢
+      simp only [Bool.and_eq_true, decide_eq_true_eq] at c1
+      simp [readCharBytes, hk, c1]
+    · split
+      · refine ⟨_, _, rfl, ?_⟩
+        have hk : utf8SeqLen (UInt8.ofNat (v / 4096 % 16 + 224)) = 3 := by
+          rw [utf8SeqLen_ofNat _ (by omega)]
+          have h1 : ¬ (v / 4096 % 16 + 224 < 128) := by omega
+          have h2 : ¬ (v / 4096 % 16 + 224 < 194) := by omega
+          have h3 : ¬ (v / 4096 % 16 + 224 < 224) := by omega
+          have h4 : v / 4096 % 16 + 224 < 240 := by omega
+          simp only [h1, h2, h3, h4, if_false, if_true]
+        have c1 := cont_ofNat (v / 64 % 64 + 128) (by omega)
+        have d1 : (decide (128 ≤ v / 64 % 64 + 128) && decide (v / 64 % 64 + 128 < 192)) = true := by
+          simp only [Bool.and_eq_true, decide_eq_true_eq]; omega
+        rw [d1] at c1
+        have c2 := cont_ofNat (v % 64 + 128) (by omega)
+        have d2 : (decide (128 ≤ v % 64 + 128) && decide (v % 64 + 128 < 192)) = true := by
+          simp only [Bool.and_eq_true, decide_eq_true_eq]; omega
+        rw [d2] at c2
+        generalize UInt8.ofNat (v / 4096 % 16 + 224) = b at hk ⊢
+        generalize UInt8.ofNat (v / 64 % 64 + 128) = b2 at c1 ⊢
+        generalize UInt8.ofNat (v % 64 + 128) = b3 at c2 ⊢
+        simp only [Bool.and_eq_true, decide_eq_true_eq] at c1 c2
+        simp [readCharBytes, hk, c1, c2]
+      · refine ⟨_, _, rfl, ?_⟩
+        have hk : utf8SeqLen (UInt8.ofNat (v / 262144 % 8 + 240)) = 4 := by
+          rw [utf8SeqLen_ofNat _ (by omega)]
+          have h1 : ¬ (v / 262144 % 8 + 240 < 128) := by omega
+          have h2 : ¬ (v / 262144 % 8 + 240 < 194) := by omega
+          have h3 : ¬ (v / 262144 % 8 + 240 < 224) := by omega
+          have h4 : ¬ (v / 262144 % 8 + 240 < 240) := by omega
+          have h5 : v / 262144 % 8 + 240 < 245 := by omega
+          simp only [h1, h2, h3, h4, h5, if_false, if_true]
+        have c1 := cont_ofNat (v / 4096 % 64 + 128) (by omega)
+        have d1 : (decide (128 ≤ v / 4096 % 64 + 128) && decide (v / 4096 % 64 + 128 < 192)) = true := by
+          simp only [Bool.and_eq_true, decide_eq_true_eq]; omega
+        rw [d1] at c1
+        have c2 := cont_ofNat (v / 64 % 64 + 128) (by omega)
+        have d2 : (decide (128 ≤ v / 64 % 64 + 128) && decide (v / 64 % 64 + 128 < 192)) = true := by
+          simp only [Bool.and_eq_true, decide_eq_true_eq]; omega
+        rw [d2] at c2
+        have c3 := cont_ofNat (v % 64 + 128) (by omega)
+        have d3 : (decide (128 ≤ v % 64 + 128) && decide (v % 64 + 128 < 192)) = true := by
+          simp only [Bool.and_eq_true, decide_eq_true_eq]; omega
+        rw [d3] at c3
+        generalize UInt8.ofNat (v / 262144 % 8 + 240) = b at hk ⊢
+        generalize UInt8.ofNat (v / 4096 % 64 + 128) = b2 at c1 ⊢
+        generalize UInt8.ofNat (v / 64 % 64 + 128) = b3 at c2 ⊢
+        generalize UInt8.ofNat (v % 64 + 128) = b4 at c3 ⊢
+        simp only [Bool.and_eq_true, decide_eq_true_eq] at c1 c2 c3
+        simp [readCharBytes, hk, c1, c2, c3]
+
+theorem utf8Encode_eq_nl (c : Char) (h : String.utf8EncodeChar c = [10]) : c = '\n' := by
+  unfold String.utf8EncodeChar at h
+  simp only at h
+  split at h
+  · rename_i h1
+    simp only [List.cons.injEq, and_true] at h
+    have : (UInt8.ofNat c.val.toNat).toNat = (10 : UInt8).toNat := by rw [h]
+    simp only [UInt8.toNat_ofNat'] at this
+    have hv : c.val.toNat = 10 := by
+      have : c.val.toNat % 256 = 10 := by simpa using this
+      omega
+    apply Char.ext
+    apply UInt32.toNat_inj.mp
+    simpa using hv
+  · split at h
+    · simp at h
+    · split at h <;> simp at h
+
+theorem readLine_raw_utf8 (cs : List Char) (rest acc : List UInt8) (h : '\n' ∉ cs)
+    (fuel : Nat) (hf : cs.length < fuel) :
+    readLine true fuel (utf8 cs ++ 10 :: rest) acc = .line (acc ++ utf8 cs) true rest := by
+  induction cs generalizing fuel acc with
+  | nil =>
+    cases fuel with
+    | zero => simp at hf
+    | succ f => simp [utf8, readLine, readCharBytes_ascii 10 rest (by decide)]
+  | cons c t ih =>
+    cases fuel with
+    | zero => simp at hf
+    | succ f =>
+      have hc : c ≠ '\n' := fun e => h (by simp [e])
+      have ht : '\n' ∉ t := fun e => h (List.mem_cons_of_mem c e)
+      have hlen : t.length < f := by simp at hf; omega
+      obtain ⟨b, tl, he, hr⟩ := readCharBytes_utf8 c (utf8 t ++ 10 :: rest)
+      have hne : (b :: tl) ≠ [10] := fun e => hc (utf8Encode_eq_nl c (he.trans e))
+      have hu : utf8 (c :: t) = (b :: tl) ++ utf8 t := by simp [utf8, he]
+      rw [hu]
+      simp only [List.cons_append, List.append_assoc, readLine, hr]
+      simp only [hne, if_false, Bool.not_true, Bool.false_eq_true, and_false]
+      rw [ih (acc ++ b :: tl) ht f hlen]
+      simp
+
 end YashModel.Pipe
